@@ -345,6 +345,9 @@ func init() {
 		Run: func(seed uint64, idx int, tier string) *fw.Result {
 			c := c02Build(seed, idx, tier)
 			p := c02Prog(c.kind, c.min, c.max, c.mode, c.unknown, idx%2 == 0)
+			if c.kind == KMap && idx%5 == 3 {
+				p.MapLower, p.LateMapLower = true, idx%10 == 3 // keys folded to lower case, the setter called before or after the command exists
+			}
 			t := Resolve(p)
 			s, unasserted := c02Interpret(t, p.Root.Opts[0], c.argv)
 			oc := Run(p, c.argv, false)
